@@ -1489,7 +1489,7 @@ def main(run):
     nw = 8 if run.tier == "quick" else 16
     common.pool_map(run, __name__, "worker_fixed", [(i, nw, os.path.join(run.scratch, "f%d" % i), open_ids)
                                                     for i in range(nw)], procs=nw)
-    total = run.n(1600, 80000)
+    total = run.n(1600, 60000)
     steps = run.n(40, 60)
     per = total // nw
     common.pool_map(run, __name__, "worker_machine",
